@@ -80,7 +80,9 @@ func checkDescription(c ax.Case) *vlib.Failure {
 	strip := func(l alphabet.Letters) string {
 		return strings.ReplaceAll(string(alphabet.LettersToBytes(l)), string([]byte{byte(gap)}), "")
 	}
-	if strip(rowA) != c.R[first.AS:last.AE] || strip(rowB) != c.Q[first.BS:last.BE] {
+	// (a sequence may itself hold the gap letter: it is removed from both sides of the comparison)
+	gs := string([]byte{byte(gap)})
+	if strip(rowA) != strings.ReplaceAll(c.R[first.AS:last.AE], gs, "") || strip(rowB) != strings.ReplaceAll(c.Q[first.BS:last.BE], gs, "") {
 		return vlib.Failf("format-content", "%s: Format rows %q / %q do not reduce to the aligned subsequences %q / %q", desc, rowA, rowB, c.R[first.AS:last.AE], c.Q[first.BS:last.BE])
 	}
 	// Format takes the gap letter from its caller: a second rendering of the same alignment with
@@ -111,7 +113,7 @@ func checkDescription(c ax.Case) *vlib.Failure {
 		}
 		return string(b)
 	}
-	if stripQ(qa) != c.R[first.AS:last.AE] || stripQ(qb) != c.Q[first.BS:last.BE] || len(qa) != len(rowA) {
+	if stripQ(qa) != strings.ReplaceAll(c.R[first.AS:last.AE], gs, "") || stripQ(qb) != strings.ReplaceAll(c.Q[first.BS:last.BE], gs, "") || len(qa) != len(rowA) {
 		return vlib.Failf("format-content", "%s: Format rows of quality sequences do not reduce to the aligned subsequences (lengths %d vs %d for plain sequences)", desc, len(qa), len(rowA))
 	}
 	return nil
@@ -155,6 +157,14 @@ func genCase(t *rapid.T) ax.Case {
 	pool := a.Letters()[1:a.Len()]
 	if rapid.Bool().Draw(t, "small-pool") && len(pool) > 3 {
 		pool = pool[:3]
+	}
+	switch rapid.IntRange(0, 9).Draw(t, "pool-extra") {
+	case 3:
+		// the gap letter is a letter of the alphabet like any other (index 0): a sequence may hold it
+		pool = "-" + pool
+	case 6:
+		// the alphabets are case-insensitive: upper-case letters share the index of their lower-case forms
+		pool = pool + strings.ToUpper(pool)
 	}
 	maxLen := 40
 	if vlib.Thorough() {
@@ -222,6 +232,12 @@ func descClasses(c ax.Case) []string {
 	}
 	if d := len(c.R) - len(c.Q); d >= 200 || d <= -200 {
 		l = append(l, "gap-of-200-or-more")
+	}
+	if strings.Contains(c.R+c.Q, "-") {
+		l = append(l, "gap-letter-inside-a-sequence")
+	}
+	if strings.ToLower(c.R+c.Q) != c.R+c.Q {
+		l = append(l, "upper-case-letters")
 	}
 	ps, _, err := c.Run()
 	if err == nil {
@@ -450,7 +466,7 @@ func TestIllTyped(t *testing.T) {
 			return badCase{Kind: rapid.SampledFrom(badKinds).Draw(t, "kind"), C: c, Pos: rapid.IntRange(0, 11).Draw(t, "pos"), InQ: rapid.Bool().Draw(t, "in-q"),
 				Bad: rapid.IntRange(0, 9).Draw(t, "bad"), Rows: rapid.IntRange(0, 40).Draw(t, "rows")}
 		},
-		Check: checkBad,
+		Check:   checkBad,
 		Classes: func(b badCase) []string { return []string{b.Kind, b.C.Aligner + "/" + b.Kind, vlib.NT} }})
 }
 
